@@ -68,9 +68,10 @@ COVER(RV == 0) COVER(RV == NNG_ENOENT)
 #define CP ((nni_pipe *) g_tinit_pipe)
 #define PC_CREATED (g_tinit_calls == OLD(g_tinit_calls) + 1)
 static int pipe_create(nni_pipe **pp, nni_sock *sock, nni_sp_tran *tran, nni_dialer *d, nni_listener *l)
-__CPROVER_requires(FRESH(pp, *pp) && FRESH(sock, SOCKT) && FRESH(tran, nni_sp_tran) && FRESH(tran->tran_pipe, nni_sp_pipe_ops) && VP_NO_LOCK_HELD)
+__CPROVER_requires(FRESH(pp, *pp) && FRESH(sock, SOCKT) && FRESH(tran, nni_sp_tran) && FRESH(tran->tran_pipe, nni_sp_pipe_ops) && VP_NO_LOCK_HELD && SC_RANGE(pipes))
 __CPROVER_requires(tran->tran_pipe->p_size == vp_tran_pipe_size && tran->tran_pipe->p_init == vp_tran_pipe_init && sock->s_pipe_ops.pipe_init == vp_proto_pipe_init \
-    && sock->s_pipe_ops.pipe_size < SC_PRIV_MAX && g_tsize < SC_PRIV_MAX)
+    /* BOUND (tool): no private areas, the block is exactly a struct nni_pipe (see CTX_SHAPE in modules/sockcore) */ \
+    && sock->s_pipe_ops.pipe_size == 0 && g_tsize == 0)
 /* exactly one of dialer / listener (the callers nni_pipe_alloc_dialer / _listener) */
 __CPROVER_requires(g_sole_c ? (l == NULL && FRESH(d, nni_dialer)) : (d == NULL && FRESH(l, nni_listener)))
 __CPROVER_requires(sock->s_pipes.ll_offset == offsetof(nni_pipe, p_sock_node) && TAIL_PRE(sock->s_pipes, g_sole_a))
